@@ -53,9 +53,12 @@ def data(rng):
         A = 0.9 * np.linalg.qr(rng.standard_normal((d, d)))[0]
         Z = np.stack([np.linalg.matrix_power(A, k) @ Z[:, 0] for k in range(m)], axis=1)
     bl = c15.rand_basis(rng, d)
-    while len(bl) < 2:
+    while len(bl) < 2 and not SINGLE_MODE:
         bl = c15.rand_basis(rng, d)
     return d, m, Z, bl
+
+
+SINGLE_MODE = True  # a basis list with ONE mode (the transformed data tensor is the plain EDMD data matrix, a train of order 2) is admitted
 
 
 def admissible(ctx, Z, bl, pairs):
